@@ -890,7 +890,56 @@ pub fn gen_string(rng: &mut Rng) -> String {
 }
 
 /// random custom font: atlas with `per_row` glyph cells per row, optional slack columns
+/// A font with tens of thousands of glyphs (as a CJK font has): glyph indices beyond 16 bits, an
+/// atlas of one very long row (up to 140 000 pixels) or of hundreds of rows; tiny cells keep it cheap.
+fn gen_huge_font(rng: &mut Rng) -> CustomFontD {
+    let cw = rng.u32r(1, 2);
+    let ch = rng.u32r(1, 2);
+    let glyphs = match rng.below(4) {
+        0 => rng.u32r(65_530, 65_600),
+        1 => 70_000,
+        2 => rng.u32r(30_000, 40_000),
+        _ => rng.u32r(65_537, 69_000),
+    };
+    let per_row = match rng.below(4) {
+        0 => glyphs,
+        1 => 256,
+        2 => (65_536 / cw).max(1) + rng.u32r(0, 3),
+        _ => rng.u32r(300, 1100),
+    };
+    let rows = (glyphs + per_row - 1) / per_row;
+    let image_w = cw * per_row + if rng.chance(1, 3) { rng.u32r(0, cw - 1) } else { 0 };
+    let image_h = rows * ch;
+    let atlas = rng.bytes(crate::rawmodel::stride(image_w, 1) * image_h as usize);
+    // consecutive code points of the supplementary planes (no surrogates in between)
+    let first = 0x10000u32 + rng.u32r(0, 0x400);
+    let glyph_chars: Vec<char> = (0..glyphs).map(|k| char::from_u32(first + k).unwrap()).collect();
+    let mut mapping = String::new();
+    mapping.push('\0');
+    mapping.push(glyph_chars[0]);
+    mapping.push(*glyph_chars.last().unwrap());
+    CustomFontD {
+        image_w,
+        image_h,
+        atlas,
+        cw,
+        ch,
+        spacing: if rng.chance(1, 2) { 0 } else { 1 },
+        baseline: rng.u32r(0, ch - 1),
+        underline: (rng.u32r(0, ch + 1), 1),
+        strike: (rng.u32r(0, ch - 1), 1),
+        mapping,
+        replacement: rng.usizer(0, glyphs as usize - 1),
+        glyph_chars,
+        closure_mapping: rng.chance(1, 8),
+    }
+}
+
 pub fn gen_custom_font(rng: &mut Rng) -> CustomFontD {
+    // 1 in 80: tens of thousands of glyphs
+    if rng.chance(1, 80) {
+        return gen_huge_font(rng);
+    }
     let cw = rng.u32r(1, 7);
     let ch = rng.u32r(1, 9);
     // 1 in 10 fonts has a wide atlas (more than 256 pixels per row) with many glyphs
